@@ -1,9 +1,65 @@
 """Further idiom rewrites of class R (DESIGN.md 2.2), each a 1:1 replacement by a shim call
 whose contract states the documented behaviour of the replaced idiom.  Kept in a table so
 that the list is closed and auditable."""
-from .tok import Tok, match_close, texts, is_p, is_id, toks_of, find_seq, OPEN, CLOSE
-from .extract import Undecided
+from .tok import Tok, match_close, match_open, texts, is_p, is_id, toks_of, find_seq, OPEN, CLOSE
+from .extract import Undecided, _expr_start, _w
+
+
+def _call(name, args, ws):
+    out = [Tok("id", name, ws), Tok("p", "(", "")]
+    for q, a in enumerate(args):
+        if q:
+            out.append(Tok("p", ",", ""))
+        out += [_w(x, (" " if q else "") if k == 0 else x.ws) for k, x in enumerate(a)]
+    out.append(Tok("p", ")", ""))
+    return out
 
 
 def apply(toks, au, opts):
+    out, i, n = [], 0, len(toks)
+    while i < n:
+        t = toks[i]
+        # String::from_utf8_lossy(E).to_string()  ->  vx_lossy_string(E)
+        if is_id(t, "String") and texts(toks, i + 1, 4) == [":", ":", "from_utf8_lossy", "("]:
+            k = match_close(toks, i + 4)
+            if texts(toks, k + 1, 4) == [".", "to_string", "(", ")"]:
+                au.note("R", "String::from_utf8_lossy(E).to_string() -> vx_lossy_string(E)")
+                out += _call("vx_lossy_string", [toks[i + 5:k]], t.ws)
+                i = k + 5
+                continue
+        # "literal".to_string()  ->  vx_string_from("literal")
+        if t.kind == "str" and texts(toks, i + 1, 4) == [".", "to_string", "(", ")"]:
+            au.note("R", '"lit".to_string() -> vx_string_from("lit")')
+            out += _call("vx_string_from", [[t]], t.ws)
+            i += 5
+            continue
+        # X.parse::<T>()  ->  vx_parse_T(X)
+        if is_p(t, ".") and is_id(toks[i + 1], "parse") and texts(toks, i + 2, 3) == [":", ":", "<"] and texts(toks, i + 6, 3) == [">", "(", ")"]:
+            ty = toks[i + 5].text
+            s = _expr_start(out)
+            recv = out[s:]
+            ws0 = recv[0].ws
+            del out[s:]
+            au.note("R", f"X.parse::<{ty}>() -> vx_parse_{ty}(X)")
+            out += _call(f"vx_parse_{ty}", [recv], ws0)
+            i += 9
+            continue
+        # Bytes::from(E)  ->  Bytes::vx_from_vec(E)   (From<Vec<u8>> for Bytes)
+        if is_id(t, "Bytes") and texts(toks, i + 1, 4) == [":", ":", "from", "("]:
+            au.note("R", "Bytes::from(vec) -> Bytes::vx_from_vec(vec)")
+            out += [t, toks[i + 1], toks[i + 2], Tok("id", "vx_from_vec", "")]
+            i += 4
+            continue
+        out.append(t)
+        i += 1
+    toks = out
+    # type-directed rewrites named by the recipe:  strne=a:b  ->  `a != b` becomes vx_string_ne_str(a, b)
+    for spec in filter(None, opts.get("strne", "").split(",")):
+        a, b = spec.split(":")
+        while True:
+            p = find_seq(toks, [a, "!", "=", b])
+            if p < 0:
+                break
+            au.note("R", f"{a} != {b} (String vs &str) -> vx_string_ne_str({a}, {b})")
+            toks[p:p + 4] = _call("vx_string_ne_str", [[Tok("id", a, "")], [Tok("id", b, "")]], toks[p].ws)
     return toks
